@@ -426,6 +426,21 @@ func runC13(t *T) {
 	}
 	small, big := tarKnobs(t)
 	sp := genTarSpec(t, small, big, 6)
+	// a repeated member (what `tar -r` makes: an updated copy appended under the same name, possibly in another
+	// spelling): "the entry" is then either copy, complete. Its openers come after Done() -- what is served while
+	// the later copy is being written over the earlier one is not something the statement settles.
+	repeated, var2 := "", []byte(nil)
+	if c.Chance(1, 8) && len(sp.files) > 0 {
+		var fnames []string
+		for n := range sp.files {
+			fnames = append(fnames, n)
+		}
+		sort.Strings(fnames)
+		repeated = fnames[c.Draw(len(fnames))]
+		var2 = uniqueData(40, []int{small + 1, 2*small + 5, big + 1, 100}[c.Weighted(3, 3, 1, 1)])
+		sp.entries = append(sp.entries, tarEntry{name: repeated, spell: spellName(t, repeated, false), perm: 0644, data: var2})
+		t.Stat("c13:repeated-member")
+	}
 	data := sp.archive(t)
 	destKind := c.Draw(3)
 	chunk := []int{512, 4096, 100, 1024}[c.Draw(4)]
@@ -478,6 +493,9 @@ func runC13(t *T) {
 	names = append(names, "missing", ".")
 	sort.Strings(names)
 	t.Logf("fault=%s small=%d big=%d chunk=%d openers=%d archive: %s", faultKind, small, big, chunk, nopen, sp.describe())
+	if repeated != "" {
+		t.Logf("repeated member: %q once more at the end of the archive, %d bytes", repeated, len(var2))
+	}
 	type openRes struct {
 		name  string
 		err   error
@@ -496,6 +514,12 @@ func runC13(t *T) {
 			}
 			want, isFile := sp.files[res.name]
 			if res.err == nil && isFile {
+				if res.name == repeated && res.rerr == nil && bytes.Equal(res.bytes, var2) {
+					continue // the later copy, complete
+				}
+				if res.name == repeated {
+					t.Logf("repeated: delivered %q... later copy %q...", string(res.bytes[:min(12, len(res.bytes))]), string(var2[:min(12, len(var2))]))
+				}
 				if res.rerr != nil || !bytes.Equal(res.bytes, want.data) {
 					t.Fail("partial", sig+":open-ok-but-incomplete", fmt.Sprintf("opener%d: Open(%q) succeeded but the handle delivered %d bytes (read error %v); the entry has %d bytes. UnarchiveErr=%v", i, res.name, len(res.bytes), res.rerr, len(want.data), rfs.UnarchiveErr()))
 				}
@@ -536,11 +560,18 @@ func runC13(t *T) {
 		for i := 0; i < nopen; i++ {
 			i := i
 			res := &openRes{name: names[c.Draw(len(names))]}
+			if repeated != "" && c.Chance(1, 2) {
+				res.name = repeated
+			}
 			results[i] = res
 			delay := c.Draw(40)
 			s.Go(fmt.Sprintf("opener%d", i), func() {
 				for k := 0; k < delay; k++ {
 					yield("opener-delay")
+				}
+				if res.name == repeated {
+					<-rfs.Done()
+					yield("opener-after-done")
 				}
 				f, err := rfs.Open(res.name)
 				res.err = err
